@@ -25,7 +25,26 @@ def table(prob, point):
                 # aerostructural point: the aircraft cg is computed AFTER the coupled group (it depends on the fuel burn), so the
                 # centre and rate of rotation of the coupled lattice are separate inputs of aero_states (left to the user to connect)
                 frame = "rot"
-            rows.append({"name": name, "consumer": abs_in, "source": src, "frame": frame, "pgsrc": ".aero_states.pg_" in src})
+            rows.append({"name": name, "consumer": abs_in, "source": src, "frame": frame, "pgsrc": ".aero_states.pg_" in src, "want": ""})
+    # performance groups: an input named like one of the group's own promoted outputs must read that output
+    outs = set(model._var_allprocs_abs2meta["output"])
+    for abs_in in model._var_allprocs_abs2meta["input"]:
+        if not abs_in.startswith(point + "."):
+            continue
+        rel = abs_in[len(point) + 1 :].split(".")
+        groups = [i for i, x in enumerate(rel[:-1]) if x.endswith("_perf")]
+        if not groups:
+            continue
+        G = point + "." + ".".join(rel[: groups[0] + 1])
+        name = rel[-1]
+        if name in FLOW_NAMES:
+            continue
+        try:
+            want = model.get_source(G + "." + name)
+        except Exception:
+            continue
+        if want in outs and want.startswith(G + ".") and not want.startswith(".".join(abs_in.split(".")[:-1]) + "."):
+            rows.append({"name": "perf:" + name, "consumer": abs_in, "source": conn.get(abs_in, "<unconnected>"), "frame": "body", "pgsrc": False, "want": want})
     expected = {}
     for n in FLOW_NAMES:
         try:
